@@ -287,14 +287,34 @@ class Scalar(AbstractValueWithQuantityObject):
     def __hash__(self) -> int:  # type:ignore[override]
         return hash((self._value, self._quantity))
 
-    def __lt__(self, other: Any) -> bool:
+    def _GetValuesToCompare(self, other: Any) -> Tuple[float, float]:
+        """
+        :returns:
+            This value and the other value, both in the unit of this scalar.
+        """
         if self.quantity_type != other.quantity_type:
             msg = "can not compare scalars of different quantity types: %r != %r"
             raise TypeError(msg % (self.quantity_type, other.quantity_type))
 
-        v1 = self._value
-        v2 = other.GetValue(self.unit)
+        return self._value, other.GetValue(self.unit)
+
+    def __lt__(self, other: Any) -> bool:
+        v1, v2 = self._GetValuesToCompare(other)
         return v1 < v2
+
+    # Note: the operators below are not left to total_ordering because it derives them from
+    # __eq__, which also compares the unit: 1 m > 100 cm and 100 cm > 1 m would both be True.
+    def __le__(self, other: Any) -> bool:
+        v1, v2 = self._GetValuesToCompare(other)
+        return v1 <= v2
+
+    def __gt__(self, other: Any) -> bool:
+        v1, v2 = self._GetValuesToCompare(other)
+        return v1 > v2
+
+    def __ge__(self, other: Any) -> bool:
+        v1, v2 = self._GetValuesToCompare(other)
+        return v1 >= v2
 
     # right ----------------------------------------------------------------------------------------
     def __rtruediv__(self, other: Any) -> "Scalar":
